@@ -8,6 +8,7 @@ import (
 	"math"
 	"os"
 	"os/exec"
+	"sort"
 	"strings"
 
 	"golang.org/x/perf/benchfmt"
@@ -162,6 +163,8 @@ func genAPI(r *hx.Rand, nRecs int, mode int, nonWF bool) {
 		live := &benchfmt.Result{}
 		unitSeen := map[benchfmt.UnitMetadataKey]bool{}
 		wasFile, wasInternal, deleted := map[string]bool{}, map[string]bool{}, map[string]bool{}
+		// what the API contract says each key is: SetConfig => internal, setFile / File=true => file
+		intentInternal := map[string]bool{}
 		c.tag(fmt.Sprintf("mode%d", mode))
 		badAt := -1
 		if nonWF {
@@ -172,7 +175,7 @@ func genAPI(r *hx.Rand, nRecs int, mode int, nonWF bool) {
 			for e := r.Intn(4); e > 0; e-- {
 				k := hx.Pick(r, ks)
 				idx, has := live.ConfigIndex(k)
-				switch op := r.Intn(9); {
+				switch op := r.Intn(12); {
 				case op == 0 && !isDot(k): // setFile
 					if deleted[k] {
 						c.tag("readd")
@@ -182,6 +185,7 @@ func genAPI(r *hx.Rand, nRecs int, mode int, nonWF bool) {
 					}
 					setFile(live, k, pickValue(r))
 					wasFile[k] = true
+					intentInternal[k] = false
 				case op == 1: // setInternal
 					if has && live.Config[idx].File {
 						c.tag("flip-f2i")
@@ -191,12 +195,15 @@ func genAPI(r *hx.Rand, nRecs int, mode int, nonWF bool) {
 					}
 					live.SetConfig(k, pickValue(r))
 					wasInternal[k] = true
+					intentInternal[k] = true
 				case op == 2 && has: // delete
 					live.SetConfig(k, "")
 					deleted[k] = true
+					delete(intentInternal, k)
 					c.tag("delete")
 				case op == 3 && has && !isDot(k): // flip file <-> internal, value untouched
 					live.Config[idx].File = !live.Config[idx].File
+					intentInternal[k] = !live.Config[idx].File
 					if live.Config[idx].File {
 						c.tag("flip-i2f")
 					} else {
@@ -210,8 +217,26 @@ func genAPI(r *hx.Rand, nRecs int, mode int, nonWF bool) {
 				case op == 6 && has: // change through SetConfig-like append (any length), File kept
 					live.Config[idx].Value = append(live.Config[idx].Value[:0], pickValue(r)...)
 					c.tag("change")
+				case (op == 9 || op == 10) && has:
+					// SetConfig with the value the key ALREADY has: the key becomes (stays) internal
+					if live.Config[idx].File {
+						c.tag("setsame-file")
+					} else {
+						c.tag("setsame-int")
+					}
+					if deleted[k] {
+						c.tag("setsame-readd")
+					}
+					live.SetConfig(k, string(live.Config[idx].Value))
+					intentInternal[k] = true
+				case op == 11 && has && live.Config[idx].File && !isDot(k):
+					// a tool relabelling every record: SetConfig(k, same value) on a file key
+					c.tag("setsame-file")
+					live.SetConfig(k, live.GetConfig(k))
+					intentInternal[k] = true
 				case op == 7 && !has && !isDot(k):
 					setFile(live, k, pickValue(r))
+					intentInternal[k] = false
 					if deleted[k] {
 						c.tag("readd")
 					}
@@ -256,6 +281,12 @@ func genAPI(r *hx.Rand, nRecs int, mode int, nonWF bool) {
 				target = fresh(r, live, false)
 				breakWF(r, c, target, unitSeen)
 			}
+			for k, in := range intentInternal {
+				if in {
+					c.intent = append(c.intent, k)
+				}
+			}
+			sort.Strings(c.intent)
 			c.write(target)
 		}
 	})
@@ -356,6 +387,24 @@ func apiCorpus() {
 		res.SetConfig("c", "")
 		c.write(res)
 		c.write(&benchfmt.Result{Name: benchfmt.Name("Y"), Iters: 1, Values: val})
+	})
+	// a tool overrides a FILE key with the value it already has: from then on the key is internal
+	run("api", func(c *caseB) {
+		c.tag("corpus")
+		c.tag("setsame-file")
+		res := &benchfmt.Result{Name: benchfmt.Name("X"), Iters: 1, Values: val}
+		setFile(res, "branch", "main")
+		setFile(res, "goos", "linux")
+		c.write(res)
+		res.SetConfig("branch", "main")
+		c.intent = []string{"branch"}
+		c.write(res)
+		res.SetConfig("branch", "")
+		setFile(res, "branch", "main")
+		res.SetConfig("branch", "main")
+		res.SetConfig("goos", "linux")
+		c.intent = []string{"branch", "goos"}
+		c.write(res)
 	})
 	// N1
 	run("api", func(c *caseB) {
@@ -572,6 +621,42 @@ func textTags(c *caseB, text []byte) {
 	c.tag("text")
 }
 
+// runRelabel: results streamed from the real reader and relabelled by a tool before they are
+// written (no clone): SetConfig(k, v) with the value the input already gives k, SetConfig of
+// a fixed label on every record, SetConfig of a different value.
+func runRelabel(r *hx.Rand, text []byte) {
+	run("text", func(c *caseB) {
+		textTags(c, text)
+		c.tag("relabel")
+		rd := benchfmt.NewReader(bytes.NewReader(text), "in")
+		for rd.Scan() {
+			rec := rd.Result()
+			if res, ok := rec.(*benchfmt.Result); ok {
+				mode := r.Intn(3)
+				for _, cf := range append([]benchfmt.Config(nil), res.Config...) {
+					if !r.Chance(1, 2) {
+						continue
+					}
+					switch mode {
+					case 0, 1:
+						res.SetConfig(cf.Key, string(cf.Value)) // same value
+						c.tag("setsame-file")
+					case 2:
+						res.SetConfig(cf.Key, "relabelled")
+					}
+					c.intent = append(c.intent, cf.Key)
+				}
+				if r.Chance(1, 2) {
+					res.SetConfig("a", "1") // the corpus texts say `a: 1`
+					res.SetConfig("branch", "main")
+					c.intent = append(c.intent, "a", "branch")
+				}
+			}
+			c.write(rec)
+		}
+	})
+}
+
 // runText: parse with the real reader, write every record as delivered (no clone: the
 // reader's Result and buffers are reused between Write calls).
 func runText(text []byte, extra ...string) {
@@ -752,5 +837,11 @@ func generate() {
 	n = hx.N(800, 12000)
 	for i := 0; i < n; i++ {
 		genFilter(r)
+	}
+	// relabelled streams
+	runRelabel(r, []byte("branch: main\na: 1\nBenchmarkX 1 1 ns/op\nBenchmarkY 1 2 ns/op\nbranch: dev\nBenchmarkX 1 3 ns/op\n"))
+	n = hx.N(400, 8000)
+	for i := 0; i < n; i++ {
+		runRelabel(r, genText(r, 2+r.Intn(14), 0))
 	}
 }
